@@ -5,6 +5,7 @@ import (
 	"fmt"
 	"io"
 	"sort"
+	"strings"
 	"time"
 
 	"github.com/gogo/protobuf/proto"
@@ -56,6 +57,10 @@ type Sim struct {
 	DeliverHook func(to, from int, msg consensus.Message)
 	OwnHook     func(node int, msg consensus.Message)
 
+	// RestartErr: the first failed Restart (the node could not be brought back); no further restarts are drawn then.
+	RestartErr error
+
+	optsFn   func(i int) NodeOpts
 	ownProp  map[int]*types.Proposal // last own proposal per node (to assemble honest candidates from own parts)
 	ownParts map[int]*types.PartSet
 	lastLock map[int]string
@@ -111,7 +116,7 @@ func NewSim(powers []int64, byz []int, opts func(i int) NodeOpts) (*Sim, error) 
 // NewSimWith is NewSim with genesis options.
 func NewSimWith(powers []int64, byz []int, opts func(i int) NodeOpts, gopts GenesisOpts) (*Sim, error) {
 	g, keys := MakeGenesisWith(powers, 2, gopts)
-	s := &Sim{Net: &Net{}, G: g, Keys: keys, Powers: powers, Byz: byz, Cands: map[uint64][]*Cand{}, byID: map[string]*Cand{}, Stat: map[string]int{}}
+	s := &Sim{Net: &Net{}, G: g, Keys: keys, Powers: powers, Byz: byz, Cands: map[uint64][]*Cand{}, byID: map[string]*Cand{}, Stat: map[string]int{}, optsFn: opts}
 	isByz := map[int]bool{}
 	for _, b := range byz {
 		isByz[b] = true
@@ -153,6 +158,71 @@ func NewSimWith(powers []int64, byz []int, opts func(i int) NodeOpts, gopts Gene
 		}
 	}
 	return s, nil
+}
+
+// EnableRestarts gives every correct node an in-memory consensus log and makes the primitives write to it the way
+// receiveRoutine does, so that Restart can bring a node back through the product's own start-up path. Call it before
+// Start.
+func (s *Sim) EnableRestarts() {
+	for _, i := range s.Correct {
+		s.Nodes[i].CS.VerifSetWAL(NewMemWAL(nil))
+	}
+	s.WriteWAL = true
+}
+
+// Restart stops correct node i the way a node is shut down (cached state is flushed, the log is complete) and starts a
+// new process on its database and log: node construction as in backend.go, then the product's ConsensusState.Start
+// with its WAL catch-up. In-memory state that is not persisted (round state beyond what the log restores, peers' claims,
+// the pending timeout, the transaction pool) is gone, as in a real restart.
+func (s *Sim) Restart(i int) error {
+	old := s.Nodes[i]
+	if old == nil || s.down(i) {
+		return nil
+	}
+	mw, ok := old.CS.VerifWAL().(*MemWAL)
+	if !ok {
+		return fmt.Errorf("node %d has no in-memory log (EnableRestarts not called)", i)
+	}
+	s.DrainOwn(i)
+	img := mw.Image("all")
+	old.Close()
+	o := NodeOpts{}
+	if s.optsFn != nil {
+		o = s.optsFn(i)
+	}
+	o.DB = old.DB
+	o.WAL = NewMemWALFrom(img, nil)
+	inner := o.PV
+	if inner == nil {
+		inner = types.NewDefaultPrivValidator(s.Keys[i])
+	}
+	o.PV = &RecPV{PrivValidator: inner, OnSign: func(r SigRec) {
+		if s.SigHook != nil {
+			s.SigHook(i, r)
+		}
+	}}
+	nn, err := NewNode(i, s.G, s.Keys[i], o)
+	if err != nil {
+		return fmt.Errorf("restart of node %d: %w", i, err)
+	}
+	if err := nn.StartReal(); err != nil {
+		nn.Close()
+		return fmt.Errorf("restart of node %d: ConsensusState.Start: %w", i, err)
+	}
+	s.Nodes[i] = nn
+	prefix := fmt.Sprintf("%d<-", i)
+	for k := range s.maj23Seen {
+		if strings.HasPrefix(k, prefix) {
+			delete(s.maj23Seen, k) // claims made to the old process died with it
+		}
+	}
+	s.Stat["restart"]++
+	s.tracef("restart n%d -> %s", i, Fingerprint(nn))
+	s.DrainOwn(i)
+	if s.After != nil {
+		s.After()
+	}
+	return nil
 }
 
 // Addr returns the address of genesis validator i.
@@ -506,6 +576,11 @@ func (s *Sim) Step(t *rapid.T) {
 		s.Deliver(i, -1, m)
 		s.DrainOwn(i)
 		s.Stat["replay"]++
+	case act == 19 && s.WriteWAL && s.RestartErr == nil: // restart one correct node (only in sims with EnableRestarts)
+		i := rapid.SampledFrom(up).Draw(t, "restart")
+		if _, ok := s.Nodes[i].CS.VerifWAL().(*MemWAL); ok {
+			s.RestartErr = s.Restart(i)
+		}
 	default: // drain own queues everywhere
 		for _, i := range up {
 			s.DrainOwn(i)
